@@ -357,6 +357,13 @@ func genCli(seed uint64, prop string) *Scenario {
 		sc.Steps = append(sc.Steps, Step{T: "start"})
 	}
 	sc.Steps = append(sc.Steps, Step{T: "await", A: 120})
+	if mode == 0 && r.IntN(10) == 0 {
+		// the application hands over a request in which two operations share an id: whatever the client makes
+		// of it, it must not report convergence while one of them is in none of the three places
+		st := g.batchStep(0, cliOps(g, 2+g.pick(3)))
+		st.T, st.A = "q-dup", r.IntN(8)
+		sc.Steps = append(sc.Steps, st, Step{T: "await-dup", A: 30})
+	}
 	return sc
 }
 
@@ -428,6 +435,7 @@ type cliRun struct {
 	pollDone   bool
 	polls      int
 	inQ        map[uint64]bool // operations whose Q call has not returned yet (not "handed over" yet)
+	dupOps     int             // operations in the request with a repeated id (q-dup)
 	epoch      int             // bumped around Reset: a Status() snapshot taken across it describes no single session
 }
 
@@ -630,6 +638,44 @@ func runCli(e *env) {
 					delete(cr.inQ, op.Id)
 				}
 			})
+		case "q-dup":
+			ops := st.ops()
+			if len(ops) < 2 {
+				continue
+			}
+			for _, op := range ops {
+				op.Id = cr.nextID
+				cr.nextID++
+				op.ElectionId = &spb.Uint128{Low: cr.elec}
+			}
+			i := st.A % (len(ops) - 1)
+			ops[i+1].Id = ops[i].Id
+			cr.dupOps = len(ops)
+			cr.pollStop = true // the per-id book-keeping of the poller does not describe this request
+			cr.timed("Q", func() { cr.c.Q(&spb.ModifyRequest{Operation: ops}) })
+		case "await-dup":
+			if cr.dupOps == 0 {
+				continue
+			}
+			ctx, cancel := context.WithTimeout(context.Background(), time.Duration(st.A)*time.Second)
+			var err error
+			done := false
+			simrt.Go("cli-await-dup", func() {
+				err = cr.c.AwaitConverged(ctx)
+				done = true
+			})
+			ok := simrt.WaitUntil("await-dup-join", "AwaitConverged returns", time.Duration(st.A+30)*time.Second, func() bool { return done })
+			cancel()
+			if !ok {
+				e.report("C14", "await-blocked", "AwaitConverged did not return (not even on context expiry)", e.sim.Describe(), false)
+				continue
+			}
+			if err == nil {
+				sst, _ := cr.c.Status()
+				e.report("C13", "operation-lost", "AwaitConverged reported success although two operations of one request shared an id: one of them is neither queued, pending nor resulted",
+					fmt.Sprintf("%d operations handed over in the request; status: %d pending, %d results, %d send errors", cr.dupOps, len(sst.PendingTransactions), len(sst.Results), len(sst.SendErrs)), false)
+			}
+			e.probe("client: request with a repeated operation id did not converge silently")
 		case "q-elect":
 			cr.elec = st.Elec[1]
 			cr.timed("Q", func() { cr.c.Q(&spb.ModifyRequest{ElectionId: uint128(*st.Elec)}) })
